@@ -56,8 +56,8 @@ class Run:
             hdir = os.path.join(self.tmp, "harness")
             if not os.path.isdir(hdir):
                 shutil.copytree(HARNESS, hdir, ignore=shutil.ignore_patterns("bin"))
-                gm = open(os.path.join(hdir, "go.mod")).read().replace("=> /repo", "=> " + os.path.realpath(REPO))
-                open(os.path.join(hdir, "go.mod"), "w").write(gm)
+        # the harness module mirrors the repository's requirements (identical, offline module resolution)
+        subprocess.run([os.path.join(ROOT, "bin", "genmod"), REPO, hdir], check=True)
         shutil.copyfile(os.path.join(REPO, "go.sum"), os.path.join(hdir, "go.sum"))
         out = os.path.join(self.tmp, cmd + ("-race" if race else ""))
         args = ["go", "build", "-tags", tags, "-o", out]
